@@ -2,6 +2,7 @@
 // the last token; start <= end
 use vstd::prelude::*;
 use std::ops::Range;
+use std::ops::Deref;
 verus! {
 //@include shims.rs
 //@include types_error.rs
@@ -78,9 +79,8 @@ pub trait ToRange {
         r }
 //@end
 
-//~assume the closure `|(p, offset)|` of `fold` is applied to every procedure declaration in source order (filter_map().map().collect(); R6): "exactly one range per procedure, in source order" is not decided
 //~assume every procedure's token range (shifted by its Reference offset) lies inside the token vector (established by the nom parser)
-//~not_decided one folding range per procedure, in source order, non-overlapping (iterator chain around the closure and the parser's ranges); end line when the last token is a comment
+//~not_decided that the ranges of different procedures do not overlap (needs the parser's ranges to be disjoint: nom); end line when the last token is a comment
 /// starts on the line of the first non-comment token of the procedure, ends on the line of the end of its last token
 pub open spec fn fold_lines_ok(p: ProcedureDeclaration, offset: usize, doc: AnalyzedSource, fr: FoldingRange) -> bool {
     let lo = p.info.range.start + offset; let hi = p.info.range.end + offset;
@@ -88,16 +88,59 @@ pub open spec fn fold_lines_ok(p: ProcedureDeclaration, offset: usize, doc: Anal
     k < hi ==> fr.start_line == pos_of(doc.tokens@[k].range.start, doc.text@).line
             && fr.end_line == pos_of(doc.tokens@[hi - 1].range.end, doc.text@).line
 }
-//@extract lsp4spl/src/features/fold.rs :: fn fold :: closure |(p, offset)|
-//@ lift pub fn fold_closure(p: &ProcedureDeclaration, offset: usize, doc: &AnalyzedSource) -> (fr: FoldingRange)
+
+// ---------- the whole answer: exactly one range per procedure declaration, in source order
+//@include inc_reference.rs
+//@extract spl_frontend/src/ast.rs :: impl<T> AsRef<T> for Reference<T>
+//@ ret r fn as_ref
+//@ sig fn as_ref
+        ensures *r == self.reference,
+//@end
+pub open spec fn proc_of(gd: Reference<GlobalDeclaration>) -> Option<(ProcedureDeclaration, usize)> {
+    match gd.reference { GlobalDeclaration::Procedure(p) => Some((p, gd.offset)), _ => None }
+}
+/// the procedure declarations among the first n global declarations, in source order, each with its Reference offset
+pub open spec fn procs(items: Seq<Reference<GlobalDeclaration>>, n: nat) -> Seq<(ProcedureDeclaration, usize)>
+    decreases n
+{
+    if n == 0 || n > items.len() { Seq::empty() } else { procs(items, (n - 1) as nat) + (match proc_of(items[n - 1]) { Some(x) => seq![x], None => Seq::empty() }) }
+}
+pub open spec fn same_proc(out: Option<(&ProcedureDeclaration, usize)>, want: Option<(ProcedureDeclaration, usize)>) -> bool {
+    match (out, want) { (Some(a), Some(b)) => *a.0 == b.0 && a.1 == b.1, (None, None) => true, _ => false }
+}
+//~assume `xs.iter().filter_map(f).map(g).collect()` applies g to the Some results of f over xs, in order (std iterator semantics; R8)
+#[verifier::external_body]
+pub fn filter_map_map_collect<'a, F: Fn(&'a Reference<GlobalDeclaration>) -> Option<(&'a ProcedureDeclaration, usize)>, G: Fn((&'a ProcedureDeclaration, usize)) -> FoldingRange>(items: &'a Vec<Reference<GlobalDeclaration>>, f: F, g: G) -> (r: Vec<FoldingRange>)
+    requires
+        forall|i: int| 0 <= i < items@.len() ==> call_requires(f, (&#[trigger] items@[i],)),
+        forall|i: int, out: Option<(&'a ProcedureDeclaration, usize)>| 0 <= i < items@.len() && #[trigger] call_ensures(f, (&items@[i],), out) ==> same_proc(out, proc_of(items@[i])),
+        forall|j: int| 0 <= j < procs(items@, items@.len()).len() ==> call_requires(g, ((&(#[trigger] procs(items@, items@.len())[j]).0, procs(items@, items@.len())[j].1),)),
+    ensures
+        r@.len() == procs(items@, items@.len()).len(),
+        forall|j: int| 0 <= j < r@.len() ==> call_ensures(g, ((&procs(items@, items@.len())[j].0, procs(items@, items@.len())[j].1),), #[trigger] r@[j]),
+{ items.iter().filter_map(f).map(g).collect() }
+pub open spec fn proc_tokens_ok(p: ProcedureDeclaration, offset: usize, doc: AnalyzedSource) -> bool {
+    p.info.range.start <= p.info.range.end && p.info.range.end + offset <= doc.tokens@.len() && p.info.range.end + offset <= usize::MAX
+}
+//@extract lsp4spl/src/features/fold.rs :: fn fold :: letexpr folding_ranges
+//@ rewrite filter_map_map_collect tuple_param_to_let
+//@ lift pub fn fold_ranges(doc: &AnalyzedSource) -> (r: Vec<FoldingRange>)
 //@ sig
     requires
-        p.info.range.start <= p.info.range.end, p.info.range.end + offset <= doc.tokens@.len(), p.info.range.end + offset <= usize::MAX,
         tokens_tile(doc.tokens@, byte_off(doc.text@, doc.text@.len() as int)), tokens_on_boundaries(doc.tokens@, doc.text@), text_fits(doc.text@),
+        forall|j: int| 0 <= j < procs(doc.ast.global_declarations@, doc.ast.global_declarations@.len()).len() ==>
+            proc_tokens_ok((#[trigger] procs(doc.ast.global_declarations@, doc.ast.global_declarations@.len())[j]).0, procs(doc.ast.global_declarations@, doc.ast.global_declarations@.len())[j].1, *doc),
     ensures
-        fr.start_line <= fr.end_line, //# fold::start_not_after_end
-        fold_lines_ok(*p, offset, *doc, fr), //# fold::first_code_token_to_last_token
-        fr.kind == Some(FoldingRangeKind::Region),
+        r@.len() == procs(doc.ast.global_declarations@, doc.ast.global_declarations@.len()).len(), //# fold::one_range_per_procedure_declaration
+        forall|j: int| 0 <= j < r@.len() ==> fold_lines_ok(procs(doc.ast.global_declarations@, doc.ast.global_declarations@.len())[j].0, procs(doc.ast.global_declarations@, doc.ast.global_declarations@.len())[j].1, *doc, #[trigger] r@[j]), //# fold::in_source_order_each_on_its_procedure
+        forall|j: int| 0 <= j < r@.len() ==> (#[trigger] r@[j]).start_line <= r@[j].end_line, //# fold::every_range_well_formed
+//@ closure |gd| : &Reference<GlobalDeclaration>
+ -> (out: Option<(&ProcedureDeclaration, usize)>)
+                ensures same_proc(out, proc_of(*gd)),
+//@ closure |p_offset| : (&ProcedureDeclaration, usize)
+ -> (fr: FoldingRange)
+                requires proc_tokens_ok(*p_offset.0, p_offset.1, *doc),
+                ensures fr.start_line <= fr.end_line, fold_lines_ok(*p_offset.0, p_offset.1, *doc, fr),
 //@ before "let range = as_pos_range(&text_range, &doc.text);"
 proof {
                     assert(is_char_at(doc.text@, 0, 0));
